@@ -1059,7 +1059,7 @@ class TypeEngine(Visitable, Generic[_T]):
         self,
     ) -> Union[CacheConst, Tuple[Any, ...]]:
         names = util.get_cls_kwargs(self.__class__)
-        return (self.__class__,) + tuple(
+        key = (self.__class__,) + tuple(
             (
                 k,
                 (
@@ -1073,6 +1073,19 @@ class TypeEngine(Visitable, Generic[_T]):
             and not k.startswith("_")
             and self.__dict__[k] is not None
         )
+        if self._variant_mapping:
+            # types established by with_variant() render in place of
+            # this one for their dialect
+            variants = []
+            for dialect_name in sorted(self._variant_mapping):
+                variant_key = self._variant_mapping[
+                    dialect_name
+                ]._static_cache_key
+                if variant_key is NO_CACHE:
+                    return NO_CACHE
+                variants.append((dialect_name, variant_key))
+            key += (("_variant_mapping", tuple(variants)),)
+        return key
 
     @overload
     def adapt(self, cls: Type[_TE], **kw: Any) -> _TE: ...
